@@ -52,7 +52,11 @@ CONTRACTS = {
     ),
     "Tensor.get_ranks": dict(
         pure=True, fresh_result=True,
-        ensures=[("slice", "result == self.ranks[self.rank_ptr:]")],
+        ensures=[("slice", "result == self.ranks[self.rank_ptr:]"),
+                 ("elements", "implies(0 <= self.rank_ptr and self.rank_ptr <= len(self.ranks), "
+                              "        len(result) == len(self.ranks) - self.rank_ptr and "
+                              "        all(result[i] == self.ranks[self.rank_ptr + i] for i in range(len(result))) and "
+                              "        all(self.ranks[p] == result[p - self.rank_ptr] for p in range(self.rank_ptr, len(self.ranks))))")],
     ),
     "Tensor.get_init_ranks": dict(
         pure=True,
